@@ -257,6 +257,13 @@ func (s *Scheduler) Run(fns []func(), choices []int) SchedResult {
 				apply(ev)
 				continue
 			case <-time.After(s.DeadlockTimeout):
+				// confirm before reporting: a starved machine is not a deadlock
+				select {
+				case ev := <-s.events:
+					apply(ev)
+					continue
+				case <-time.After(2 * s.DeadlockTimeout):
+				}
 				var desc []string
 				for _, r := range s.reqs {
 					if r.state != "done" {
